@@ -31,9 +31,9 @@ CHECKS = {
  },
  "C11": {
   "category": "other",
-  "technique": "narrow semantic lint over the pretty-error code: unwrap/expect on search results without a dominating not-found test",
-  "text": "ONLY the 'never panics' clause is decided: in PrettyParseError::from_parse_error, the line iterator and Display no unwrap/expect is applied to the result of a search/iteration whose emptiness is not excluded, and there is no explicit panic. The genuine defect it found (empty text) is fixed in /repo. Line, column and caret placement are arithmetic over runtime values; they are not decided and not claimed (a seeded column error is recorded as not caught for that reason).",
-  "note": TRUST + "Clause-level claim; see DESIGN.md C11.",
+  "technique": "semantic summaries (path-sensitive abstract interpretation of MIR) of the line iterator, the line-search predicate, the column search and the format call (template bytes decoded), compared clause by clause with what C11 needs; finite-ordering evaluation of the predicate; narrow lint for unwrap/expect on search results",
+  "text": "Decided for all texts and positions, on the code of PrettyParseError::from_parse_error and its line iterator, as long as the printer has the shape 'iterator of line records + find + column search + one format call' (otherwise the clause is reported undecided in the evidence, not as a violation): records are the contiguous half-open ranges [line start, next line start) with a 0-based counter and the line's text (C11.iter); the first record with start <= p < end is chosen, evaluated on all orderings of (start, p, end) (C11.line); the column is the number of characters of that text before byte offset p - start and, at the end of the line, all of them (C11.col); line and column are shown 1-based, the caret is right-aligned, space-filled, in a field of width column, directly below the echoed line and after the same prefix (C11.show); no unwrap/expect on a search result that can be empty for a position 0..=len (C11.found). Two genuine defects found this way (empty text panics; wrong line at line starts / column 1 at line ends) are fixed in /repo. Not decided: terminal display width (tabs, wide characters) - C11 counts characters too.",
+  "note": TRUST + "std semantics assumed for Iterator::find/position, char_indices, str::find, format width/alignment (template encoding per library/core/src/fmt/mod.rs of the pinned nightly). Hand argument from the four clauses to C11 in DESIGN.md C11.",
  },
  "C12": {
   "category": "translation_validation",
